@@ -243,7 +243,7 @@ func runC13(c *Ctx) {
 			drained := false
 			flow.Instrs(rl.fn, func(in ssa.Instruction) {
 				sl, ok := in.(*ssa.Select)
-				if !ok || sl.Blocking || len(sl.States) != 1 || sl.States[0].Dir != types.RecvOnly || sl.States[0].Chan != ackv {
+				if !ok || sl.Blocking || len(sl.States) != 1 || sl.States[0].Dir != types.RecvOnly || !sameVal(sl.States[0].Chan, ackv) && !samePath(sl.States[0].Chan, ackv) {
 					return
 				}
 				if flow.Dominates(sl, rl.write) && !rl.loop.Blocks[sl.Block()] {
@@ -257,7 +257,7 @@ func runC13(c *Ctx) {
 					continue
 				}
 				for i, a := range ci.Common().Args {
-					if a != ackv || i >= len(h.Params) {
+					if !sameVal(a, ackv) && !samePath(a, ackv) || i >= len(h.Params) {
 						continue
 					}
 					hp := h.Params[i]
